@@ -18,7 +18,8 @@ namespace
 constexpr double EPS = DBL_EPSILON;
 
 // ---------------------------------------------------------------------------------------------
-// harness convex quadratic: f(x) = 1/2 (Hx)' D (Hx) - 1'x, H = I - 2 vv'/v'v (v = 1..n), D = kappa^(i/(n-1))
+// harness convex quadratic: f(x) = 1/2 (Hx)' D (Hx) - b'x, H = I - 2 vv'/v'v (v = 1..n), D = kappa^(i/(n-1)),
+// b_i = 0.7 + 0.05 i (so that no origin of the lattice is the minimizer)
 class hquad_t final : public function_t
 {
 public:
@@ -50,7 +51,7 @@ public:
         for (size_t i = 0; i < n; ++i)
         {
             z[i] = m_D[i] * y[i];
-            fx += 0.5 * y[i] * z[i] - x(static_cast<tensor_size_t>(i));
+            fx += 0.5 * y[i] * z[i] - b(i) * x(static_cast<tensor_size_t>(i));
         }
         if (gx.size() == x.size())
         {
@@ -58,13 +59,15 @@ public:
             reflect(z.data(), w.data());
             for (size_t i = 0; i < n; ++i)
             {
-                gx(static_cast<tensor_size_t>(i)) = w[i] - 1.0;
+                gx(static_cast<tensor_size_t>(i)) = w[i] - b(i);
             }
         }
         return fx;
     }
 
 private:
+    static double b(const size_t i) { return 0.7 + 0.05 * static_cast<double>(i); }
+
     void reflect(const double* in, double* out) const
     {
         const auto n = static_cast<size_t>(size());
@@ -94,7 +97,8 @@ struct fn_t
 
 // ---------------------------------------------------------------------------------------------
 // the axes
-const std::vector<double>                    RADII  = {1e-2, 1.0, 1e3};
+const std::vector<double>                    RADII_QUICK    = {1e-2, 1.0, 1e3};
+const std::vector<double>                    RADII_THOROUGH = {1e-2, 1e-1, 1.0, 10.0, 1e2, 1e3};
 const std::vector<std::string>               DIRS   = {"-g", "-G60(g)", "-diag(1..n)^-1 g", "+g", "0"};
 const std::vector<double>                    T0S    = {1e-3, 1.0, 1e3, std::numeric_limits<double>::quiet_NaN(),
                                                        std::numeric_limits<double>::infinity()};
@@ -430,7 +434,7 @@ int main(int argc, char** argv)
     }
 
     // functions: harness quadratics first (simplest), then the registered smooth ones, by increasing dimension
-    const std::vector<tensor_size_t> dims = args.thorough() ? std::vector<tensor_size_t>{1, 2, 4, 16}
+    const std::vector<tensor_size_t> dims = args.thorough() ? std::vector<tensor_size_t>{1, 2, 3, 4, 8, 16}
                                                             : std::vector<tensor_size_t>{1, 2, 4};
     std::vector<fn_t>                fns;
     std::vector<std::string>         names;
@@ -477,7 +481,8 @@ int main(int argc, char** argv)
         fns = std::move(uniq);
     }
 
-    const auto configs = make_configs();
+    const auto& RADII   = args.thorough() ? RADII_THOROUGH : RADII_QUICK;
+    const auto  configs = make_configs();
     std::vector<rlsearchk_t> searches;
     std::vector<std::string> config_names;
     for (const auto& c : configs)
@@ -498,7 +503,7 @@ int main(int argc, char** argv)
 
     lattice_t lat;
     lat.axis("function", fns.size(), jarr_str(names));
-    lat.axis("x", 2 * RADII.size(), jstr("r*(1,1,..), r*(-1,+1,-1,..) for r in 1e-2, 1, 1e3"));
+    lat.axis("x", 2 * RADII.size(), jobj({{"r*(1,1,..) and r*(-1,+1,-1,..) for r in", jarr_num(RADII)}}));
     lat.axis("direction", DIRS.size(), jarr_str(DIRS));
     lat.axis("t0", T0S.size(), jarr_num(T0S));
     lat.axis("c1c2", C12S.size(), jstr("(1e-4,0.1) (1e-4,0.9) (0.1,0.9) (0.49,0.5)"));
